@@ -181,14 +181,23 @@ def parse_request(stream, pos=0, proxy_line_ok=False):
                     return R("reject", cls="te-unknown", listed=True, **base)
         if not codings:
             return R("reject", cls="te-empty", listed=True, **base)
-        if codings.count("chunked") > 1:
+        # the obsolete "identity" coding means "no transformation" (RFC 2616 3.6; removed by RFC 7230): a recipient that
+        # still knows it treats it as absent - the repository pins this reading (fixture valid/029)
+        if any(c != "identity" for c in codings):
+            codings = [c for c in codings if c != "identity"]
+        else:
+            codings = []
+            te_fields = []
+        if codings and codings.count("chunked") > 1:
             # RFC 9112 6.1: A sender MUST NOT apply the chunked transfer coding more than once
             return R("reject", cls="te-chunked-repeated", listed=True, **base)
         if "chunked" in codings and codings[-1] != "chunked":
             # RFC 9112 6.3 rule 4: ... chunked is not the final encoding, the message body length cannot
             # be determined reliably; the server MUST respond with 400 and then close
             return R("reject", cls="te-chunked-not-last", listed=True, **base)
-        if "chunked" in codings:
+        if not codings:
+            pass
+        elif "chunked" in codings:
             if version < (1, 1):
                 # RFC 9112 6.1: A server ... that receives an HTTP/1.0 message containing a
                 # Transfer-Encoding header field MUST treat the message as if the framing is faulty
